@@ -461,6 +461,37 @@ def translate_jobstate(repo):
 JOBUTIL_KNOWN = {}
 
 
+def translate_strrow(repo):
+    """BaseJob._str, prettify_timedelta, JobType member names"""
+    import py2v_strrow as R
+    jp, up, dp = (os.path.join(repo, x) for x in ("scheduler/base/job.py", "scheduler/base/job_util.py", "scheduler/base/definition.py"))
+    CURFILE[0] = jp
+    jt = ast.parse(open(jp).read())
+    text = R.translate(jt, ast.parse(open(up).read()), ast.parse(open(dp).read()))
+    tp, ap = (os.path.join(repo, x) for x in ("scheduler/threading/job.py", "scheduler/asyncio/job.py"))
+    text += "\n" + R.translate_job_str(jt, ast.parse(open(tp).read()), ast.parse(open(ap).read()))
+    return HEADER % jp + "From Sv Require Import Timer Job Sched Table PyRepr.\n\n" + text
+
+
+def translate_table(repo):
+    """Scheduler.__str__ of both front ends: columns, names, cells"""
+    import py2v_table as T
+    out = []
+    for rel, skel, prefix, w in (("scheduler/threading/scheduler.py", T.SKELETON_THR, "thr", True),
+                                 ("scheduler/asyncio/scheduler.py", T.SKELETON_AIO, "aio", False)):
+        path = os.path.join(repo, rel)
+        CURFILE[0] = path
+        out.append(T.translate(ast.parse(open(path).read()), skel, prefix, w))
+    head = HEADER % os.path.join(repo, "scheduler/threading/scheduler.py") + "From Gen Require Import GenStr.\n\n" + \
+        "Definition row_nth (row : list pystr) (i : nat) : pystr := nth i row [].\n" + \
+        "Definition col_width (cols : list (bool * nat)) (i : nat) : nat := snd (nth i cols (true, O)).\n" + \
+        "Definition str_or_empty (s : pystr) : pystr := match s with [] => [] | _ => s end.\n" + \
+        "(* str_cutoff with a width >= 1 never raises *)\n" + \
+        "Definition py_cut (s : pystr) (w : nat) (tail : bool) : pystr :=\n" + \
+        "  match str_cutoff s (Z.of_nat w) tail with Ok r => r | Err _ => s end.\n\n"
+    return head + "\n".join(out)
+
+
 def translate_trigger(repo):
     """scheduler/trigger/core.py: Weekday classes and the weekday() factory"""
     import py2v_trigger as T
@@ -686,7 +717,7 @@ def main():
     sys.path.insert(0, os.path.dirname(os.path.abspath(__file__)))
     for fname, fn in (("GenTimer.v", translate_timer), ("GenJobState.v", translate_jobstate),
                       ("GenJobUtil.v", translate_jobutil), ("GenSelect.v", translate_select),
-                      ("GenJobInit.v", translate_jobinit), ("GenSched.v", translate_sched), ("GenOnce.v", translate_once), ("GenRegistry.v", translate_registry), ("GenPost.v", translate_postloop), ("GenSupervisor.v", translate_supervisor), ("GenTrigger.v", translate_trigger)):
+                      ("GenJobInit.v", translate_jobinit), ("GenSched.v", translate_sched), ("GenOnce.v", translate_once), ("GenRegistry.v", translate_registry), ("GenPost.v", translate_postloop), ("GenSupervisor.v", translate_supervisor), ("GenTrigger.v", translate_trigger), ("GenTable.v", translate_table), ("GenStrRow.v", translate_strrow)):
         try:
             text = fn(repo)
             with open(os.path.join(outdir, fname), "w") as fh:
